@@ -234,7 +234,7 @@ func runLuaScenario(name string, seed uint64, verbose bool) string {
 		src = fixedLua[name]
 	}
 	// Go's collector runs only when the scenario says so: a finaliser that fires between the last
-	// continuation step and Close / the end of a context is lost (known finding), and that must not
+	// continuation step and Close / the end of a context used to be lost (fixed by 5fae9c3); GC must not
 	// happen at random.
 	debug.SetGCPercent(-1)
 	x := newLuaRun()
